@@ -693,3 +693,29 @@ pub fn case(listeners: bool) -> BoxedStrategy<RedisCase> {
     ]
     .boxed()
 }
+
+/// Byte-level decoding for the libFuzzer target: a tag byte, then 0xff-separated URLs.
+pub fn decode(data: &[u8]) -> RedisCase {
+    let tag = data.first().copied().unwrap_or(0);
+    let rest = if data.len() > 1 { &data[1..] } else { &[][..] };
+    let urls: Vec<String> = rest.split(|b| *b == 0xff).map(|c| String::from_utf8_lossy(c).to_string()).collect();
+    match tag % 3 {
+        0 => RedisCase::Standalone {
+            url: urls.first().cloned(),
+            conn: None,
+            max_size: None,
+        },
+        1 => RedisCase::Cluster {
+            urls: Some(urls),
+            conns: None,
+            read_from_replicas: tag & 4 != 0,
+        },
+        _ => RedisCase::Sentinel {
+            urls: Some(urls),
+            conns: None,
+            master: "mymaster".into(),
+            replica: tag & 4 != 0,
+            node: None,
+        },
+    }
+}
